@@ -87,6 +87,8 @@ struct Fate {
   int kind = 0;       // 0 exit(value), 1 killed by signal 'value', 2 exec failure
   int value = 0;
   int min_steps = 0;  // the child cannot end before that many scheduling steps after exec
+  int stop_at = -1;   // >= 0: that many steps after exec the child is stopped (SIGSTOP / SIGTSTP from outside: job control) ...
+  int stop_len = 0;   // ... and continued (SIGCONT) that many steps later; a stopped child does not terminate
   std::string output; // written to the redirected output (real fd) at exec time (C52)
 };
 void set_next_fate(const Fate& f);    // fate of the next child forked by the calling thread
